@@ -825,6 +825,12 @@ def run(ctx) -> RunResult:
     gen = (lib.COQ / "gen" / "Gen_Dedup.v").read_text() if (lib.COQ / "gen" / "Gen_Dedup.v").exists() else ""
     res.notes.append("source today: early_mark=%s late_mark=%s" % ("true" if "early_mark : bool := true" in gen else "false",
                                                                    "true" if "late_mark : bool := true" in gen else "false"))
+    # check.py only calls search() when run() reported no violation at all; the known finding is reported on every run, so
+    # when something no longer checks and nothing NEW was seen, look harder here
+    known_sigs = {k.get("signature") for k in lib.load_known() if k.get("property") == PID}
+    if (ctx.broken or res.disagreements) and not [v for v in res.violations if v.signature not in known_sigs]:
+        res.notes.append("something no longer checks and no new failing input was seen: running the extended search")
+        res.violations += search(ctx, list(ctx.broken))
     res.extra = {"model_steps_compared": sum(len(c["ops"]) for c, _, _ in impl["bloom"]) + sum(len(c["hist"]) for c, _, _ in impl["dedup"])}
     return res
 
